@@ -247,3 +247,130 @@ pub fn gen_strict_pairs(a: &Args, out: &mut Out, run0: u64, npairs: u64, fullini
     }
     crate::machine::set_pair_tag("none");
 }
+
+const RUN_PROGS: &[&str] = &[
+// 0: loop with a subroutine call per iteration
+"
+.orig x3000
+      LD R6, USP
+      AND R1, R1, #0
+      ADD R1, R1, #6
+LOOP  ADD R2, R2, #1
+      ST R2, CNT
+      JSR F
+      ADD R1, R1, #-1
+      BRp LOOP
+      LEA R0, MSG
+      PUTS
+      HALT
+F     ADD R3, R3, #1
+      ST R7, SAVE
+      JSR G
+      LD R7, SAVE
+      RET
+G     ADD R4, R4, #2
+      RET
+USP   .fill xFD00
+SAVE  .blkw 1
+CNT   .blkw 1
+MSG   .stringz \"hi\"
+.end
+",
+// 1: echo through the OS traps until NUL
+"
+.orig x3000
+LOOP GETC
+     OUT
+     ADD R0, R0, #0
+     BRnp LOOP
+     HALT
+.end
+",
+];
+
+fn run_scene_setup(m: &mut M, out: &mut Out, rng: &mut StdRng, which: usize, with_handler: bool) {
+    let obj = assemble_src(RUN_PROGS[which]);
+    if with_handler {
+        let handler = assemble_src(crate::scen::INT_HANDLER);
+        m.load(out, &handler);
+        m.set_mems(out, &[(0x190, word(0x1000, 0xFFFF)), (0x191, word(0x1000, 0xFFFF))]);
+    }
+    m.load(out, &obj);
+    if which == 1 { let n = rng.random_range(2..6); let mut ks: Vec<u8> = (0..n).map(|_| rng.random_range(1..=255u8)).collect(); ks.push(0); m.keys(out, &ks); }
+    for r in 0..6u8 { let x = word(rng.random_range(0..5u16), 0xFFFF); m.set_reg(out, r, x); }
+}
+
+/// C13: random sequences of run-style calls with breakpoints, limits, MCR clears and
+/// scripted interrupts (unpaired runs), and segmented-vs-unbroken pairs.
+pub fn gen_run(a: &Args, out: &mut Out, run0: u64, nruns: u64, npairs: u64) {
+    let mut rng = rng_for(a, 0xBBBB ^ run0);
+    crate::machine::set_pair_tag("none");
+    let mut run = run0;
+    for k in 0..nruns {
+        let flags = SimFlags { strict: false, use_real_traps: chance(&mut rng, 50), machine_init: MachineInitStrategy::Known { value: 0 },
+                               debug_frames: chance(&mut rng, 50), ignore_privilege: false };
+        let mut m = M::new(run, flags, out); run += 1;
+        let which = (k % 2) as usize;
+        m.add_intfn(out);
+        if chance(&mut rng, 30) { m.add_timer(out, 1, 7, 7, 0x91, rng.random_range(1..8u8), true); }
+        run_scene_setup(&mut m, out, &mut rng, which, true);
+        // breakpoints
+        if chance(&mut rng, 50) { let pc = 0x3000 + rng.random_range(0..16u16); m.add_breakpoint_pc(out, pc); }
+        if chance(&mut rng, 30) { let ck = pick(&mut rng, &["eq", "gt", "ge", "lt", "le", "ne", "never", "always"]); let v = if ck == "always" || ck == "never" { 0 } else { rng.random_range(0..8u16) };
+                                  m.add_breakpoint_cmp(out, "reg", rng.random_range(1..5u16), ck, v); }
+        if chance(&mut rng, 30) { m.add_breakpoint_cmp(out, "mem", 0x3012 + rng.random_range(0..3u16), pick(&mut rng, &["eq", "gt", "ne"]), rng.random_range(0..6u16)); }
+        let mut calls = 0;
+        while calls < 8 {
+            calls += 1;
+            let kind = pick(&mut rng, &["limit", "limit", "over", "out", "run", "pcne", "stepin"]);
+            if kind == "stepin" { if m.step(out, false, false) == "panic" { break; } continue; }
+            let arg: u64 = match kind { "limit" => rng.random_range(0..25u64), "pcne" => 0x3000 + rng.random_range(0..20u64), _ => 0 };
+            let clr_at = if chance(&mut rng, 30) { rng.random_range(1..25u32) } else { 150 };
+            let mut script = vec![];
+            if chance(&mut rng, 40) { script.push((rng.random_range(1..40u32), IntCmd { k: 1, vect: pick(&mut rng, &[0x90u8, 0x91, 0x92]), prio: rng.random_range(0..8u8) })); }
+            if chance(&mut rng, 15) { script.push((rng.random_range(1..40u32), IntCmd { k: 2, vect: 0, prio: 0 })); }
+            let r = m.run_call(out, kind, arg, &script, clr_at);
+            if r == "panic" { break; }
+            if m.sim.hit_halt() && chance(&mut rng, 60) { break; }
+            if chance(&mut rng, 15) { let pc = 0x3000 + rng.random_range(0..16u16); m.remove_breakpoint_pc(out, pc); }
+        }
+        m.end(out);
+    }
+    // segmentation pairs: A = segments (limits, breakpoints, MCR clears, step_over/out), B = one unbroken run
+    crate::machine::set_pair_tag("segments");
+    for k in 0..npairs {
+        let flags = SimFlags { strict: false, use_real_traps: false, machine_init: MachineInitStrategy::Known { value: 0 },
+                               debug_frames: chance(&mut rng, 50), ignore_privilege: false };
+        let which = (k % 2) as usize;
+        let ss: u64 = rng.random();
+        for variant in 0..2 {
+            let mut r2 = StdRng::seed_from_u64(ss);
+            let mut m = M::new(run, flags, out); run += 1;
+            m.add_intfn(out);
+            run_scene_setup(&mut m, out, &mut r2, which, false);
+            if variant == 1 {
+                m.run_call(out, "run", 0, &[], 1500);
+            } else {
+                let mut r3 = StdRng::seed_from_u64(ss ^ 0x55);
+                if chance(&mut r3, 50) { let pc = 0x3000 + r3.random_range(0..16u16); m.add_breakpoint_pc(out, pc); }
+                let mut guard = 0;
+                while !(m.sim.hit_halt() && m.sim.mem[m.sim.pc].get() == 0xF025) && guard < 400 {
+                    guard += 1;
+                    let kind = pick(&mut r3, &["limit", "limit", "over", "out", "run", "stepin"]);
+                    if kind == "stepin" { if m.step(out, false, false) != "ok" { break; } continue; }
+                    let arg: u64 = if kind == "limit" { r3.random_range(0..20u64) } else { 0 };
+                    let clr_at = if chance(&mut r3, 40) { r3.random_range(1..30u32) } else { 1500 };
+                    // an MCR clear by another thread stops the run but counts as a halt for hit_halt(); keep going
+                    let res = m.run_call(out, kind, arg, &[], clr_at);
+                    if res != "ok" { break; }
+                    if m.sim.hit_halt() && m.sim.mem[m.sim.pc].get() != 0xF025 { continue_after_mcr(&mut m); }
+                }
+            }
+            m.end(out);
+        }
+    }
+    crate::machine::set_pair_tag("none");
+}
+// hit_halt() is also true when the run stopped because the MCR was cleared; the loop above
+// must go on in that case (the program has not executed HALT yet).
+fn continue_after_mcr(_m: &mut M) {}
